@@ -81,5 +81,5 @@ CFG = dict(
     level_note="Trusted: Coq kernel; the container models (std VecDeque, ndarray views, Polars chunked arrays are external "
                "libraries); the matrix part compares the implementation with itself across backends (relational), the "
                "per-function model ties are C01/C03/C04. Polars backend: the chunked model is tied to polars.rs by the "
-               "c07pl binary in the thorough tier only (the quick tier does not build polars).",
+               "c07pl binary of the separate crate harness-pl/ in both tiers (pre-built by ./check --setup).",
 )
